@@ -332,6 +332,41 @@ static void case_cplx_from(uint64_t m, int torus, int variant /*0 native,1 gener
   case_end(1);
 }
 
+// every int32 value: slice s of 256 covers the 2^24 values with top byte s, 65536 per call (m = 32768), each value at a
+// position (real/imaginary half, vector lane) that changes from slice to slice
+static void case_cplx_from_exhaustive(int torus, int variant /*2 ref,3 avx*/, unsigned slice) {
+  char key[96];
+  snprintf(key, sizeof key, "%s|%s,every-int32", torus ? "cplx_from_tnx32" : "cplx_from_znx32", variant == 2 ? "ref" : "avx2_fma");
+  if (!case_begin(key, "slice=%u/256", slice)) return;
+  const uint64_t m = 32768;
+  gbuf_t gi, go;
+  int32_t* x = gb_alloc(&gi, 2 * m * 4, 8, 8 * (slice % 8), 4096);
+  double* out = gb_alloc(&go, 2 * m * 8, 8, 8 * ((slice + 3) % 8), 4096);
+  void* p = torus ? (void*)new_cplx_from_tnx32_precomp((uint32_t)m) : (void*)new_cplx_from_znx32_precomp((uint32_t)m);
+  const uint32_t rot = (uint32_t)(mix64(slice * 2654435761u + (unsigned)torus) & 0xFFFF);
+  uint64_t bad = 0;
+  for (uint32_t blk = 0; blk < 256; blk++) {
+    const uint32_t base = (slice << 24) | (blk << 16);
+    for (uint32_t i = 0; i < 2 * m; i++) x[i] = (int32_t)(base | (i ^ rot));
+    if (torus) (variant == 2 ? cplx_from_tnx32_ref : cplx_from_tnx32_avx2_fma)(p, out, x);
+    else (variant == 2 ? cplx_from_znx32_ref : cplx_from_znx32_avx2_fma)(p, out, x);
+    for (uint64_t i = 0; i < m; i++) {
+      const double wr = torus ? (double)x[i] * 0x1p-32 : (double)x[i], wi = torus ? (double)x[m + i] * 0x1p-32 : (double)x[m + i];
+      if ((out[2 * i] != wr || out[2 * i + 1] != wi) && bad++ < 2)
+        viol("oracle", "%s[%s]: (%d,%d) -> (%.17g,%.17g)", torus ? "cplx_from_tnx32" : "cplx_from_znx32", variant == 2 ? "ref" : "avx2_fma", x[i], x[m + i], out[2 * i], out[2 * i + 1]);
+    }
+  }
+  long wh;
+  if (gb_check(&gi, &wh) || gb_check(&go, &wh)) viol("canary", "cplx_from_* accessed outside its buffers (%ld)", wh);
+  free(p);
+  gb_free(&gi);
+  gb_free(&go);
+  cnt("values_checked", 1u << 24);
+  cntf("exhaustive_int32:%s_%s", 1u << 24, torus ? "cplx_from_tnx32" : "cplx_from_znx32", variant == 2 ? "ref" : "avx2_fma");
+  sample("all 2^24 int32 values with top byte 0x%02x converted exactly", slice);
+  case_end(1);
+}
+
 static void case_cplx_to_tnx32(uint64_t m, int variant, unsigned ovh, int dexp, unsigned rep) {
   static const char* vn[] = {"dispatch-native", "dispatch-generic", "ref", "avx2_fma"};
   char key[96];
@@ -432,6 +467,10 @@ void run_C14(void) {
   const int th = G.thorough;
   static const uint64_t MQ[] = {1, 2, 4, 8, 16, 32, 64, 256, 1024, 4096, 65536};
   unsigned ctr = 0;
+  // int32 -> complex: the whole domain (2^32 values) through both conversions, reference and AVX2 kernels
+  for (unsigned slice = 0; slice < 256; slice++)
+    for (int torus = 0; torus <= 1; torus++)
+      for (int v = 2; v <= 3; v++) case_cplx_from_exhaustive(torus, v, slice);
   for (size_t mi = 0; mi < ARRAY_LEN(MQ); mi++) {
     const uint64_t m = MQ[mi];
     const unsigned reps = th ? (m <= 1024 ? 120 : 12) : (m <= 64 ? 8 : 2);
